@@ -7,6 +7,7 @@ from collections import defaultdict, deque
 # --------------------------------------------------------------------------- names
 
 _GEN = re.compile(r"::<[^<>]*>")
+_GEN2 = re.compile(r"(?<=[A-Za-z0-9_])<[^<>]*>")
 
 
 def norm(path):
@@ -17,6 +18,7 @@ def norm(path):
     while prev != path:
         prev = path
         path = _GEN.sub("", path)
+        path = _GEN2.sub("", path)
     return path
 
 
@@ -376,6 +378,9 @@ class Body:
                 if (p in TRANSPARENT or p in LOCK_ACQ) and t["args"]:
                     # a guard denotes the cell it locks (guard liveness is tracked separately)
                     out |= self.operand_prov(t["args"][0], _stack)
+                elif p in CONDVAR_WAIT and len(t["args"]) > 1:
+                    # the guard handed to the wait comes back
+                    out |= self.operand_prov(t["args"][1], _stack)
                 elif p in ELEMENT_OF and t["args"]:
                     out |= frozenset((rk, rd, pp + ("[]",))
                                      for (rk, rd, pp) in self.operand_prov(t["args"][0], _stack))
